@@ -157,8 +157,10 @@ func c13NewRun(v *verifOut, logger logging.Logger, cfg *core.RuntimeConfig, base
 	r.vs = vs
 	r.rule = &c13Rule{}
 	r.cm = NewCommitter(r.el, logger, r.chain, vs, r.rule)
-	eventloop.Register(r.el, func(e hotstuff.CommitEvent) { r.evCommit = append(r.evCommit, e.Block) })
-	eventloop.Register(r.el, func(e clientpb.AbortEvent) { r.evAbort = append(r.evAbort, r.byBatch[e.Batch]) })
+	// observed inside AddEvent: the event queue is bounded and drops its oldest entries, so a long
+	// commit seen through Tick could lose CommitEvents
+	eventloop.Register(r.el, func(e hotstuff.CommitEvent) { r.evCommit = append(r.evCommit, e.Block) }, eventloop.UnsafeRunInAddEvent())
+	eventloop.Register(r.el, func(e clientpb.AbortEvent) { r.evAbort = append(r.evAbort, r.byBatch[e.Batch]) }, eventloop.UnsafeRunInAddEvent())
 	g := hotstuff.GetGenesis()
 	r.id(hotstuff.Hash{})
 	r.id(g.Hash())
@@ -296,6 +298,18 @@ func (r *c13Run) Commit(via, target *hotstuff.Block, fetchable []*hotstuff.Block
 		}
 		cur = p
 	}
+	if cerr == nil && !panicked && uint64(target.View()) > uint64(cbBefore.View()) {
+		// the commit decision was for target: its whole parent chain is the committed chain,
+		// however far the committer got in this call
+		for cur, n := target, 0; cur != nil && n < 1000; n++ {
+			on[cur.Hash()] = true
+			p, ok := r.present[cur.Parent()]
+			if !ok {
+				break
+			}
+			cur = p
+		}
+	}
 	for _, x := range r.evAbort {
 		if x == nil {
 			r.fail("committer:abort-unknown-batch", "AbortEvent for a batch of no known block")
@@ -322,7 +336,10 @@ func (r *c13Run) Commit(via, target *hotstuff.Block, fetchable []*hotstuff.Block
 	}
 }
 
-func (r *c13Run) finish(s *verifStream) {
+func (r *c13Run) finish(s *verifStream) { r.finishSampled(s, true) }
+
+// finishSampled: the oracle results always count; the case goes to the kernel if sampled or failing.
+func (r *c13Run) finishSampled(s *verifStream, sampled bool) {
 	var bs []string
 	for _, h := range append([]hotstuff.Hash(nil), r.order...) {
 		if b, ok := r.chain.LocalGet(h); ok {
@@ -336,7 +353,9 @@ func (r *c13Run) finish(s *verifStream) {
 	if len(r.fails) > 0 {
 		meta["fingerprint"] = r.fails[0].Fingerprint
 	}
-	r.v.Case(s, term, meta)
+	if sampled || len(r.fails) > 0 {
+		r.v.Case(s, term, meta)
+	}
 	r.v.Seen(r.kind+" "+r.key, true, map[string]any{"kind": r.kind, "ops": r.desc})
 	r.v.Count("cases_" + r.kind)
 	r.v.CountN("abort_events", r.nAborted)
@@ -438,6 +457,64 @@ func c13DepthCommits(r *c13Run, d, local, avail1, avail2 int, sideLate bool) {
 	r.Commit(chain[d+1], chain[d+1], nil)                    // one more block, nothing to fetch
 }
 
+// c13LongBacklog: a replica catching up: n uncommitted chain blocks (all stored, or a few of them
+// only at the peers) are committed by ONE commit decision; then the chain grows and further
+// commits follow. fork: 0 none, 1 an equivocating sibling of a middle block stored after the chain,
+// 2 a side branch of three blocks stored before the chain. lag: blocks committed before the backlog
+// builds up.
+func c13LongBacklog(r *c13Run, n, fork, lag int, gaps, fetchSome bool) {
+	chain := []*hotstuff.Block{hotstuff.GetGenesis()}
+	view := uint64(0)
+	for i := 1; i <= n+3; i++ {
+		view++
+		if gaps && i%7 == 0 {
+			view += uint64(i % 3)
+		}
+		chain = append(chain, c13Block(chain[i-1].Hash(), view, i))
+	}
+	r.know(chain[1:]...)
+	mid := n / 2
+	var side []*hotstuff.Block
+	switch fork {
+	case 1:
+		side = []*hotstuff.Block{c13Block(chain[mid-1].Hash(), uint64(chain[mid].View()), 1000)}
+	case 2:
+		p := chain[mid-1]
+		for j := 0; j < 3; j++ {
+			b := c13Block(p.Hash(), uint64(chain[mid+j].View()), 1000+j)
+			side = append(side, b)
+			p = b
+		}
+	}
+	r.know(side...)
+	if fork == 2 {
+		for _, b := range side {
+			r.Store(b)
+		}
+	}
+	for i := 1; i <= lag; i++ {
+		r.Store(chain[i])
+	}
+	if lag > 0 {
+		r.Commit(chain[lag], chain[lag], nil)
+	}
+	var atPeers []*hotstuff.Block
+	for i := lag + 1; i < n; i++ {
+		if fetchSome && (i == lag+2 || i == mid || i == n-1) {
+			atPeers = append(atPeers, chain[i])
+			continue
+		}
+		r.Store(chain[i])
+	}
+	if fork == 1 {
+		r.Store(side[0])
+	}
+	r.Commit(chain[n], chain[n], atPeers)                           // one decision for the whole backlog
+	r.Commit(chain[n+1], chain[n+1], nil)                           // the chain grows: one more
+	r.Commit(chain[n+3], chain[n+2], nil)                           // the rule names the parent of the new block
+	r.Commit(chain[n+3], chain[n+3], []*hotstuff.Block{chain[n+2]}) // its parent was never stored here: a peer serves it
+}
+
 func TestVerifC13(t *testing.T) {
 	v := verifNew("C13")
 	logging.SetLogLevel("error")
@@ -494,6 +571,33 @@ func TestVerifC13(t *testing.T) {
 		}
 	}
 
+	// long backlogs: one commit decision covering 30..70 (thorough: ..140) uncommitted blocks
+	nl := 0
+	for n := 30; n <= v.Pick(70, 140); n++ {
+		special := n == 31 || n == 32 || n == 33 || n == 34 || n == 63 || n == 64 || n == 65 || n == 66 || n == 70 || n == 128 || n == 129
+		for fork := 0; fork <= 2; fork++ {
+			for variant := 0; variant < 3; variant++ {
+				if variant != 0 && !special && (n+fork)%4 != 0 {
+					continue
+				}
+				lag, gaps, fetchSome := 0, false, false
+				switch variant {
+				case 1:
+					lag, gaps = 3, true
+				case 2:
+					lag, fetchSome = 1, true
+				}
+				nl++
+				key := fmt.Sprintf("backlog n=%d fork=%d lag=%d gaps=%v fetchSome=%v", n, fork, lag, gaps, fetchSome)
+				if r := c13NewRun(v, logger, cfg, base, "commit-backlog", key); r != nil {
+					c13LongBacklog(r, n, fork, lag, gaps, fetchSome)
+					// kernel: the sizes around the powers of two and a thin sample of the rest
+					r.finishSampled(s, (special && variant == 0) || nl%17 == 0)
+				}
+			}
+		}
+	}
+
 	n := v.Pick(2500, 40000)
 	for k := 0; k < n; k++ {
 		seed := v.rng.Int63()
@@ -502,5 +606,5 @@ func TestVerifC13(t *testing.T) {
 			r.finish(s)
 		}
 	}
-	v.Close("store/commit programs on a real Committer through TryCommit and commit (forks, equivocation before and after the committed chain, gaps, ancestors whose fetch fails at a chosen depth and succeeds later)")
+	v.Close("store/commit programs on a real Committer through TryCommit and commit (forks, equivocation before and after the committed chain, gaps, ancestors whose fetch fails at a chosen depth and succeeds later, one commit decision covering a backlog of 30..70 blocks)")
 }
